@@ -107,7 +107,14 @@ def cases(draw):
         if c["requests"] and draw(st.integers(0, 2)) == 0:
             # the same request asked for twice (a multiset, not a set): an exact copy inserted anywhere
             src = draw(st.sampled_from(c["requests"]))
-            c["requests"].insert(draw(st.integers(0, len(c["requests"]))), dict(src))
+            cp = dict(src)
+            if "accttype" in cp and draw(st.booleans()):
+                # the same account number as another kind of account (a checking and a savings account may share a number)
+                cp["accttype"] = draw(st.sampled_from([t for t in ACCTTYPES if t != cp["accttype"]]))
+                if draw(st.booleans()):
+                    cp["k"] = "stmtend" if cp["k"] == "stmt" else "stmt"
+                    cp = {k: v for k, v in cp.items() if k != "inctran"} if cp["k"] == "stmtend" else dict(cp, inctran=True)
+            c["requests"].insert(draw(st.integers(0, len(c["requests"]))), cp)
             c["dup"] = True
     elif api == "accounts":
         c["dtacctup"] = draw(DTS.filter(lambda x: x is not None))
